@@ -9,9 +9,15 @@
    EVERY configuration, environment and probe outcome (no bound on the number
    of nodes, lines, agents, blocked indices). *)
 From Coq Require Import ZArith List Bool String.
-From RP Require Import NodeList.Model NodeList.Oracle NodeList.Proofs.
+From RP Require Import Gen.RMInfoTables NodeList.Model NodeList.Oracle NodeList.Proofs NodeList.Tables.
 Import ListNotations.
 Open Scope Z_scope.
+
+(* 0. The tables regenerated from base.py on every run (RMInfo._defaults,
+   RMInfo._schema, the get_manager factory) are the ones the model assumes. *)
+Theorem C18_tables_wf : tables_wf = true.
+Proof. exact tables_wf_ok. Qed.
+Print Assumptions C18_tables_wf.
 
 (* 1. One entry per allocated node: no node is named twice among the offered
    and reserved nodes, every name is one the environment mentions, and under
